@@ -202,9 +202,13 @@ theorem userCanInvite_iff_auth (rules : AuthRules) (f : Fetch) (ev : Event) (p :
 
 /-- **Message-like events.** `user_can_send_message(sender, type)` = `auth_check` accepts the
 sender's event of that type without a state key — for every type string except the state event
-types that have an authorization rule of their own (`msgOwnRule`: create, member, power_levels,
-third_party_invite, and aliases / redaction while they are special-cased); none of these is a
-message-like event type. -/
+types that have an authorization rule of their own (`msgOwnRule`: `m.room.create`,
+`m.room.member`, `m.room.power_levels`, `m.room.third_party_invite` — state-only types, none of
+them a message-like event type — and, while the room version special-cases them,
+`m.room.aliases` (room versions 1–5; also a state-only type) and `m.room.redaction` (room versions
+1–2). `m.room.redaction` IS a message-like event type (`MessageLikeEventType::RoomRedaction`): in
+room versions 1–2 this theorem does not cover it; there the redaction rule decides, see
+`userCanRedactOwn_iff_auth` / `userCanRedact_iff_auth_v1`. -/
 theorem userCanSendMessage_iff_auth (rules : AuthRules) (f : Fetch) (ev : Event) (p : Levels)
     (hdom : domMsg rules f ev = true) (hp : roomLevels f = some p) :
     p.userCanSendMessage ev.sender ev.type = authCheck rules ev f := by
@@ -596,6 +600,54 @@ example :
         (fun l => (l.ban, l.invite, l.notificationsRoom, l.usersDefault)) = some (40, 60, 50, 5))
     ∧ ((ofContent c).map (fun l => (l.invite, l.notificationsRoom)) = some (60, 70)) := by
   decide
+
+/-! ## `notification_iff_push_condition`: the hypotheses are satisfiable -/
+
+namespace Ex
+/-- User ids as text: the code points of the bytes (ASCII ids here). -/
+def enc : Str → Push.Text := fun s => s.map Char.ofNat
+
+/-- alice 60, bob 10, everyone else 0; `notifications.room` 50. -/
+def plN : Levels :=
+  { ban := 50, events := [], eventsDefault := 0, invite := 0, kick := 50, redact := 50,
+    stateDefault := 50, users := [(alice, 60), (bob, 10)], usersDefault := 0, notificationsRoom := 50 }
+
+/-- External functions under which every text is a user id (the matchers are not used here). -/
+def extN : Push.Ext :=
+  { lower := id, wild := fun _ _ => false, rxMatch := fun _ _ => false, isUserId := fun _ => true }
+
+/-- A flattened event sent by `u`. -/
+def evOf (u : Str) : Push.FMap := [(Push.kSender, .str (enc u))]
+
+/-- The room context of a third user (so that neither event is the user's own). -/
+def ctxN : Push.Ctx :=
+  { roomId := "!room:s1".toList, memberCount := 3, userId := enc creator, displayName := [],
+    powerLevels := some (toPushCtx enc plN) }
+end Ex
+
+open Ex in
+/-- The hypotheses of `notification_iff_push_condition` hold on a concrete room (for alice and for
+bob), neither event is the context user's own, and the two sides are computed: alice (60 ≥ 50) may
+notify the room, bob (10) may not. -/
+example :
+    (∀ u ∈ [alice, bob],
+      (∀ k ∈ plN.users.map (·.1), enc k = enc u → k = u) ∧
+      (evOf u).getStr Push.kSender = some (enc u) ∧ extN.isUserId (enc u) = true ∧
+      ctxN.powerLevels = some (toPushCtx enc plN) ∧ Push.selfSent (evOf u) ctxN = false) ∧
+    plN.userCanTriggerRoomNotification alice = true ∧
+    Push.Cond.applies extN (.senderNotificationPermission Push.kRoom) (evOf alice) ctxN = .ok true ∧
+    plN.userCanTriggerRoomNotification bob = false ∧
+    Push.Cond.applies extN (.senderNotificationPermission Push.kRoom) (evOf bob) ctxN = .ok false := by
+  refine ⟨?_, by decide, rfl, by decide, rfl⟩
+  intro u hu
+  refine ⟨?_, ?_, rfl, rfl, ?_⟩ <;>
+    (simp only [List.mem_cons, List.not_mem_nil, or_false] at hu; rcases hu with rfl | rfl <;> decide)
+
+open Ex in
+/-- … and the theorem applied to that room and alice's event. -/
+example :
+    plN.userCanTriggerRoomNotification alice = Push.senderMayNotify extN (evOf alice) ctxN Push.kRoom :=
+  (notification_iff_push_condition extN enc plN alice (evOf alice) ctxN (by decide) rfl rfl rfl).1
 
 /-! ## Axiom audit (one line per property theorem) -/
 
